@@ -200,6 +200,28 @@ def funcs():
     import rs2lean
     try:
         body = rs2lean.translate(read("bigtools/src/bbi/bbiread.rs"), ["overlaps"])
+        # the range filters inside the block decoders (conditions mentioning both query bounds), with the clipping
+        # assignments that follow them; the variable names are part of the contract (a rename is an extraction failure)
+        defs = []
+        wig = rs2lean.range_filters(read("bigtools/src/bbi/bigwigread.rs"), "get_block_values", ("value.start", "value.end"))
+        wp = ["value_start", "value_end", "start", "end"]
+        assert len(wig) == 3, "three section types"
+        for k, (c, asg) in enumerate(wig):
+            assert rs2lean.free_vars(c) <= set(wp) and all(rs2lean.free_vars(v) <= set(wp) for v in asg.values())
+            defs.append(rs2lean.lean_def(f"wig_keep_{k}", wp, "Bool", c))
+            defs.append(rs2lean.lean_def(f"wig_clip_start_{k}", wp, "Nat", asg["value.start"]))
+            defs.append(rs2lean.lean_def(f"wig_clip_end_{k}", wp, "Nat", asg["value.end"]))
+        bed = rs2lean.range_filters(read("bigtools/src/bbi/bigbedread.rs"), "get_block_entries")
+        bp = ["entry_start", "entry_end", "start", "end"]
+        assert len(bed) == 1 and rs2lean.free_vars(bed[0][0]) <= set(bp)
+        defs.append(rs2lean.lean_def("bed_keep", bp, "Bool", bed[0][0]))
+        zoom = rs2lean.range_filters(read("bigtools/src/bbi/bbiread.rs"), "get_zoom_block_values")
+        zp = ["chrom_id", "chrom", "chrom_start", "chrom_end", "start", "end"]
+        assert len(zoom) == 2, "one per byte order"
+        for k, (c, _) in enumerate(zoom):
+            assert rs2lean.free_vars(c) <= set(zp)
+            defs.append(rs2lean.lean_def(f"zoom_keep_{k}", zp, "Bool", c))
+        body += "\n\n" + "\n\n".join(defs)
     except Exception:                               # noqa  (Unsupported, or anything the parser trips over)
         return True, False
     text = ("/-! GENERATED by tools/extract_consts.py (tools/rs2lean.py) from /repo's working tree — do not edit.\n"
@@ -238,7 +260,7 @@ def main():
     if old != text:
         with open(OUT, "w", encoding="utf-8") as f:
             f.write(text)
-    return failed + (["FUNCS(overlaps)"] if ffailed else []), (old is not None and old != text) or fchanged
+    return failed + (["FUNCS(overlaps, range filters)"] if ffailed else []), (old is not None and old != text) or fchanged
 
 
 if __name__ == "__main__":
